@@ -14,7 +14,7 @@ From CV Require Import Base.Tac Base.LinAlg Base.Cmp Model.C10_Conj Model.C10_Co
                        Proofs.C10_Approx Proofs.C10_Probe2 Proofs.C10_Vec Proofs.C10_Full Proofs.C10_Checks Proofs.C10_Life
                        Model.C10_Dep Model.C10_Direct Model.C10_Lmrf
                        Proofs.C10_Probe3 Proofs.C10_MonoExact Proofs.C10_Reg Proofs.C10_DirectLife Proofs.C10_Lmrf Proofs.C10_Affine Proofs.C10_Integral Proofs.C10_RegCheck Proofs.C10_MonoIff.
-From Coq Require Import Reals QArith Qabs Qreals.
+From Coq Require Import Reals QArith Qabs Qreals Lra.
 
 (* ------------------------------------------------------------------------------------------------- *)
 (* 1. the Gamma kernel identity and its converse                                                      *)
@@ -642,6 +642,26 @@ Theorem C10_monomial_exact_iff :
 Proof. exact mono_exact_iff. Qed.
 Print Assumptions C10_monomial_exact_iff.
 
+(* the same for GMRF(mean = Ax, prec = c s^k) with stored rank > 0 (any boundary condition, order, rank rule) ... *)
+Theorem C10_monomial_exact_iff_gmrf :
+  forall (lnG : R -> R) (c : Q) (k : Z) (rank : nat) (logdet : R) (cholT P : Rmat) (Ax b : Rvec) (alpha beta : R),
+    (0 < Q2R c)%R -> (0 < rank)%nat -> chol_law (length b) cholT P -> length Ax = length b ->
+    (proportional_on_pos (post_logd lnG (lik_gmrf (Rdeval (dmono c k)) rank logdet P Ax b) alpha beta)
+       (sampler_logpdf lnG rank (gmrf_sqrtprec cholT (Rdeval (dmono c k) 1%R)) Ax b alpha beta)
+     <-> k = 1%Z).
+Proof. exact gmrf_mono_exact_iff. Qed.
+Print Assumptions C10_monomial_exact_iff_gmrf.
+
+(* ... and for Gaussian(mean = Ax, cov = c s^k): exact iff k = -1 *)
+Theorem C10_monomial_exact_iff_cov :
+  forall (lnG : R -> R) (c : Q) (k : Z) (Ax b : Rvec) (alpha beta : R),
+    (0 < Q2R c)%R -> length Ax = length b -> (0 < length b)%nat ->
+    (proportional_on_pos (post_logd lnG (lik_gauss_cov (Rdeval (dmono c k)) Ax b) alpha beta)
+       (sampler_logpdf lnG (length b) (sqrtprec_of (from_cov_scalar (length b) (Rdeval (dmono c k) 1%R))) Ax b alpha beta)
+     <-> k = (-1)%Z).
+Proof. exact cov_mono_exact_iff. Qed.
+Print Assumptions C10_monomial_exact_iff_cov.
+
 (* the real-valued reading of a dependence tree is the image of the rational one the executable model evaluates *)
 Theorem C10_dependence_denotation :
   forall (e : dexp) (s : Q), ddef e s -> Q2R (deval e s) = Rdeval e (Q2R s).
@@ -825,16 +845,22 @@ Proof. exact (fun bc N => conj (lmrf_diff_op_2d_rows bc N) (conj (lmrf_diff_op_2
 Print Assumptions C10_lmrf_operator_shape_2d.
 
 (* ------------------------------------------------------------------------------------------------- *)
-(* 17. affine dependences: the probe's tolerance admits targets outside the conjugate structure         *)
+(* 17. affine dependences: the tolerance of the probe lets in targets outside the conjugate structure         *)
 (* ------------------------------------------------------------------------------------------------- *)
 
-(* Gaussian(mean = Ax, prec = a s + b) with a, b > 0 and at least one datum: NO Gamma(k, r) is proportional to the posterior
-   of s -- the conditional is not a Gamma at all *)
+(* Gaussian(mean = Ax, prec = a s + b) with a, b > 0 and at least one datum, and GMRF(prec = a s + b) with stored rank > 0:
+   NO Gamma(k, r) is proportional to the posterior of s -- the conditional is not a Gamma at all *)
 Theorem C10_affine_dependence_never_gamma :
-  forall (lnG : R -> R) (prec_fun : R -> R) (a b : R) (Ax Bv : Rvec) (alpha beta k r : R),
-    (0 < a)%R -> (0 < b)%R -> (forall s, 0 < s -> prec_fun s = a * s + b)%R -> length Ax = length Bv -> (0 < length Bv)%nat ->
-    ~ proportional_on_pos (post_logd lnG (lik_gauss_prec prec_fun Ax Bv) alpha beta) (gamma_logpdf lnG k r).
-Proof. exact gauss_prec_affine_never_gamma. Qed.
+  forall (lnG : R -> R) (prec_fun : R -> R) (a b : R), (0 < a)%R -> (0 < b)%R -> (forall s, 0 < s -> prec_fun s = a * s + b)%R ->
+  (forall (Ax Bv : Rvec) (alpha beta k r : R), length Ax = length Bv -> (0 < length Bv)%nat ->
+     ~ proportional_on_pos (post_logd lnG (lik_gauss_prec prec_fun Ax Bv) alpha beta) (gamma_logpdf lnG k r))
+  /\ (forall (rank : nat) (logdet : R) (P : Rmat) (Ax Bv : Rvec) (alpha beta k r : R), (0 < rank)%nat ->
+     ~ proportional_on_pos (post_logd lnG (lik_gmrf prec_fun rank logdet P Ax Bv) alpha beta) (gamma_logpdf lnG k r)).
+Proof.
+  exact (fun lnG pf a b Ha Hb Hf =>
+           conj (fun Ax Bv al be k r Hl Hn => gauss_prec_affine_never_gamma lnG pf a b Ax Bv al be k r Ha Hb Hf Hl Hn)
+                (fun rk ld P Ax Bv al be k r Hr => gmrf_affine_never_gamma lnG pf a b rk ld P Ax Bv al be k r Ha Hb Hf Hr)).
+Qed.
 Print Assumptions C10_affine_dependence_never_gamma.
 
 (* FINDING, sharpened (known_findings.tsv: exp.Conjugate|probe:three-point|non-identity-accepted): no contrived polynomial is needed --
@@ -885,6 +911,21 @@ Example C10_integral_laws_satisfiable :
   /\ (forall (c : R) (f : R -> R), Int (fun s => c * f s)%R = (c * Int f)%R)
   /\ Int (fun s => exp ((fun _ => 0%R) s)) = 1%R.
 Proof. exact integral_laws_satisfiable. Qed.
+
+(* non-vacuity of the hypotheses of sections 13, 16, 17: a positive rational coefficient with an accepted monomial, a reciprocal scale
+   law, a Cholesky law with positive rank, positive affine coefficients *)
+Example C10_nonvacuous_round5_exactness :
+  (exists c : Q, (0 < Q2R c)%R /\ probe_identity [dmono c 1] = true /\ ~ (c == 1)%Q)
+  /\ (exists scale_fun : R -> R, forall s, (0 < s)%R -> scale_fun s = (1 / s)%R)
+  /\ (exists (cholT P : Rmat) (b : Rvec) (rank : nat), chol_law (length b) cholT P /\ (0 < rank)%nat /\ (0 < length b)%nat)
+  /\ (exists a b : R, (0 < a)%R /\ (0 < b)%R /\ forall s, (0 < s)%R -> Rdeval affine_witness s = (a * s + b)%R).
+Proof.
+  split; [| split; [| split]].
+  - exists (100001 # 100000)%Q. split; [unfold Q2R; simpl; lra | split; [vm_compute; reflexivity | vm_compute; discriminate]].
+  - exists (fun s => 1 / s)%R. intros s _. reflexivity.
+  - exists wit_cholT, wit_P, [1%R; 0%R], 1%nat. split; [exact wit_chol_law | split; simpl; lia].
+  - exists 1%R, (/ 1048576)%R. split; [lra | split; [lra | intros s _; apply affine_witness_denotes]].
+Qed.
 
 (* non-vacuity of the round-5 hypotheses *)
 Example C10_nonvacuous_round5 :
